@@ -608,6 +608,7 @@ func raceModels(w *World) {
 					})
 				default:
 					kind := t.Choose(3)
+					stay := 1 + t.Choose(3)
 					lists[i] = append(lists[i], func(task *Task) {
 						ctx, cancel := context.WithCancel(context.Background())
 						switch kind {
@@ -643,15 +644,23 @@ func raceModels(w *World) {
 							for range ch {
 							}
 						default:
+							// (stays for a few rounds, writing in between: several subscribers of one or of two models are then at
+							// work at the same time, each with a goroutine of the library's that looks at every change)
 							ch := m.PullDemand(ctx)
-							task.Yield("recv")
-							select {
-							case e, ok := <-ch:
-								if ok {
-									touchEvent(e)
-									touch(e.Value)
+							for r := 0; r < stay; r++ {
+								task.Yield("recv")
+								select {
+								case e, ok := <-ch:
+									if ok {
+										touchEvent(e)
+										touch(e.Value)
+									}
+								default:
 								}
-							default:
+								if r+1 < stay {
+									x, _ := m.UpdateDemand(&traits.ElectricDemand{Current: float32(3 + r)})
+									touch(x)
+								}
 							}
 							task.Yield("cancel")
 							cancel()
